@@ -18,7 +18,7 @@ from fractions import Fraction
 from . import core
 
 THEOREMS = ["C11_expr", "C11_residual", "C11_total", "C11_total_fixed_table", "C11_total_refuted_ne",
-            "C11_loop_range", "C11_three_part_range_refuted", "C11_example"]
+            "C11_loop_range", "C11_three_part_range", "C11_three_part_range_old_reading_refuted", "C11_example"]
 
 GEN_PY = "src/pymoca/backends/casadi/generator.py"
 
@@ -163,7 +163,7 @@ def build_table(ctx):
 #   expr: ["num", text] | ["bool", b] | ["var", name] | ["der", name] | ["idx", name, k] | ["lidx", name, k]
 #         | ["loopvar"] | ["un", op, e] | ["bin", op, a, b] | ["if", [[c, e]...], els] | ["fun", f, e]
 #   eqn:  ["eq", l, r] | ["ifeq", [[c, [eq...]]...], [eq...]] | ["for", lo, hi, use_n, [eq...]]
-#         | ["for3", a, b, c, [eq...]]
+#         | ["for3", start, step, stop, [eq...]]        (for i in start:step:stop)
 # =============================================================================================
 NUMS = ["0", "1", "2", "3", "4", "0.5", "1.5", "0.25", "2.5", "0.125", "0.75", "0.1", "0.3", "1e-1", "2.0"]
 
@@ -289,6 +289,8 @@ class Gen:
             nb = r.choice([1, 1, 2])
             return ["ifeq", [[self.boolean(d - 1), [self.simple(d - 1) for _ in range(m)]] for _ in range(nb)],
                     [self.simple(d - 1) for _ in range(m)]]
+        if r.random() < 0.25:
+            return gen_for3(self, d)
         lo = r.randint(1, self.N)
         hi = r.randint(lo - (1 if r.random() < 0.08 else 0), self.N)
         use_n = (hi == self.N and r.random() < 0.5)
@@ -462,26 +464,43 @@ def gen_mat_model(rng):
     return {"kind": "model", "name": "M", "N": 3, "eqs": fix_ranges(eqs), "ieqs": fix_ranges(ieqs), "stream": "mat", "decl": "mat"}
 
 
-RANGE3 = [(1, 2, 5, 6), (1, 1, 3, 3), (2, 2, 6, 6), (1, 3, 4, 5), (1, 2, 3, 4)]
+def mrange(a, st, b):
+    """Modelica range a:st:b (spec 10.4.3), independent of the code under test"""
+    if st == 0:
+        raise ValueError("zero step")
+    if (st > 0 and a > b) or (st < 0 and a < b):
+        return []
+    n = (Fraction(b - a) / st).__floor__()
+    return [a + k * st for k in range(n + 1)]
+
+
+def gen_for3(g, d):
+    """a for-equation over a three-part range: positive / negative steps, steps that do not divide
+    the span, explicit step 1, occasionally empty"""
+    r = g.rng
+    st = r.choice([2, 2, 3, -1, -2, -2, -3, 1])
+    a, b = r.randint(1, g.N), r.randint(1, g.N)
+    if r.random() < 0.85 and ((st > 0) != (a <= b)):
+        a, b = b, a
+    vs = mrange(a, st, b)
+    g.loop = (min(vs), max(vs)) if vs else (1, 1)
+    g.zero_offsets = not vs
+    body = [g.simple(d - 1) for _ in range(r.choice([1, 1, 2]))]
+    g.loop = None
+    g.zero_offsets = False
+    # a negative step is written either as the literal -k or as the expression (0-k)
+    return ["for3", a, st, b, body, "lit" if r.random() < 0.4 else "sub"]
 
 
 def gen_model(rng, kind="plain"):
-    N = rng.randint(3, 5)
-    r3 = rng.choice(RANGE3) if kind == "for3" else None
-    if r3:
-        N = max(N, r3[3])
-    g = Gen(rng, N, allow_ne=(kind == "ne"))
+    N = rng.randint(3, 6 if kind == "for3" else 5)
+    g = Gen(rng, N, allow_ne=(kind == "ne" or rng.random() < 0.3))
     d = rng.choice([1, 2, 2, 3])
     eqs = [g.equation(d) for _ in range(rng.randint(2, 5))]
     if kind == "ne" and "<>" not in json.dumps(eqs):
         eqs.append(["eq", ["var", "b1"], ["bin", "<>", ["var", "x1"], g.real(1)]])
-    if kind == "for3":
-        a, b, c, n = r3
-        g.loop = (1, 1)
-        g.zero_offsets = True
-        body = [["eq", ["lidx", "a", 0], g.real(1)] for _ in range(rng.choice([1, 2]))]
-        g.loop = None
-        eqs.append(["for3", a, b, c, body])
+    if kind == "for3" and '"for3"' not in json.dumps(eqs):
+        eqs.append(gen_for3(g, 2))
     if kind == "emptyoff":
         lo = rng.randint(2, N)
         k = rng.choice([-1, 1]) if lo < N else -1
@@ -592,7 +611,8 @@ def pq(q, ind="  "):
     if t == "aeq":
         return "%s%s = %s;\n" % (ind, pa(q[1]), pa(q[2]))
     if t == "for3":
-        return "%sfor i in %d:%d:%d loop\n%s%send for;\n" % (ind, q[1], q[2], q[3],
+        st = str(q[2]) if q[2] > 0 or (len(q) > 5 and q[5] == "lit") else "(0-%d)" % -q[2]
+        return "%sfor i in %d:%s:%d loop\n%s%send for;\n" % (ind, q[1], st, q[3],
                                                              "".join(pq(x, ind + "  ") for x in q[4]), ind)
     raise ValueError(t)
 
@@ -693,11 +713,10 @@ def widen(lo, hi, k=1):
 
 
 class Ev:
-    def __init__(self, point, range3="modelica"):
+    def __init__(self, point):
         self.p = point
         self.i = None
         self.ftab = []
-        self.range3 = range3
         self.funs = {}
 
     # reals: (val, lo, hi)
@@ -1008,10 +1027,7 @@ class Ev:
     def loop_values(self, q):
         if q[0] == "for":
             return list(range(q[1], q[2] + 1))
-        a, b, c = q[1], q[2], q[3]
-        if self.range3 == "modelica":      # start : step : stop
-            return list(range(a, c + 1, b))
-        return list(range(a, b + c, c))    # the code's reading: start : stop : step, arange(start, stop+step, step)
+        return mrange(q[1], q[2], q[3])
 
     def residual(self, eqs):
         """expected residual vector, per equation: list of lists of (val, lo, hi)"""
@@ -1060,7 +1076,7 @@ def has(m, what):
     return what in json.dumps([m["eqs"], m["ieqs"]])
 
 
-def judge(m, r, range3="modelica"):
+def judge(m, r):
     """Property oracle.  Returns (why | None, stats)."""
     stats = {"points": 0, "skipped": 0, "entries": 0}
     if "crash" in r:
@@ -1069,7 +1085,7 @@ def judge(m, r, range3="modelica"):
         return "generate() raised %s: %s" % (r.get("exc"), r.get("msg", "")[:120]), stats
     for pi, xp in enumerate(m["xpoints"]):
         p = {k: unfr(v) for k, v in xp.items()}
-        ev = Ev(p, range3)
+        ev = Ev(p)
         ev.funs = {f["name"]: f for f in m.get("functions", [])}
         try:
             exp_d = ev.residual(m["eqs"])
@@ -1118,8 +1134,19 @@ def const_for_statement(m):
     return any(scan(f["body"]) for f in m.get("functions", []))
 
 
+def neg_literal_step(m):
+    """a for-equation whose three-part range has a negative step written as a literal (-k)"""
+    return any(q[0] == "for3" and q[2] < 0 and len(q) > 5 and q[5] == "lit" for q in m["eqs"])
+
+
+def is_neg_literal_failure(m, r):
+    return (r.get("generate") == "raised" and r.get("exc") == "RuntimeError"
+            and "'symvar' not defined for DM" in r.get("msg", "") and neg_literal_step(m))
+
+
 def tag_of(m, r, why):
-    """narrow tags of the two known findings; anything else is a plain violation"""
+    """descriptive tags of defects that were found by this check and have since been repaired (a known-findings entry with
+    that tag would absorb them; none is listed any more); anything else is a plain violation"""
     if r.get("generate") == "raised" and r.get("exc") == "Exception" and "Unknown function <>" in r.get("msg", "") \
             and has(m, '"<>"'):
         return "ne-operator-unmapped"
@@ -1129,10 +1156,8 @@ def tag_of(m, r, why):
     if r.get("generate") == "raised" and r.get("exc") == "RuntimeError" and "'symvar' not defined for DM" in r.get("msg", "") \
             and const_for_statement(m):
         return "for-statement-constant-body"
-    if has(m, '"for3"'):
-        alt, _ = judge(m, r, range3="code")
-        if alt is None:
-            return "three-part-range-order"
+    if is_neg_literal_failure(m, r):
+        return "negative-literal-step"
     return "residual-mismatch"
 
 
@@ -1189,14 +1214,16 @@ def cqn(q):
         return "(QIf [%s] [%s])" % ("; ".join("(%s, [%s])" % (ce(c), "; ".join(cs(x) for x in b)) for c, b in q[1]),
                                     "; ".join(cs(x) for x in q[2]))
     if q[0] == "for":
-        return "(QFor %s %s [%s])" % (core.cq_Z(q[1]), core.cq_Z(q[2]), "; ".join(cs(x) for x in q[4]))
+        return "(QFor %s %s %s [%s])" % (core.cq_Z(q[1]), core.cq_Z(1), core.cq_Z(q[2]), "; ".join(cs(x) for x in q[4]))
+    if q[0] == "for3":
+        return "(QFor %s %s %s [%s])" % (core.cq_Z(q[1]), core.cq_Z(q[2]), core.cq_Z(q[3]), "; ".join(cs(x) for x in q[4]))
     raise ValueError(q[0])
 
 
 def encode_cases(m, r):
     """one Coq case per judged point (or one case with impl_ok = false)"""
-    if has(m, '"for3"') or empty_offset_loop(m) or m.get("decl") in ("fun", "mat"):
-        return []      # outside the Coq model (known findings), judged by the oracle only
+    if m.get("decl") in ("fun", "mat") or is_neg_literal_failure(m, r):
+        return []      # outside the Coq model (oracle-only streams; the negative-literal-step finding)
     eqs = m["eqs"] + m["ieqs"]
     if r.get("generate") != "ok":
         if "crash" in r:
@@ -1262,6 +1289,13 @@ def corpus():
                                ["for", 3, 2, False, [["eq", ["lidx", "a", 0], NUM("1000")]]],
                                ["eq", ["idx", "c", 1], ["idx", "a", 5]]],
                "ieqs": [["eq", ["idx", "a", 1], NUM("0.5")]]})
+    # three-part ranges: step not dividing the span, negative step, explicit step 1, empty
+    ms.append({"N": 6, "eqs": [["for3", 1, 2, 5, [["eq", ["lidx", "a", 0], ["loopvar"]]]],
+                               ["for3", 6, -2, 1, [["eq", ["lidx", "c", 0], ["bin", "*", ["loopvar"], ["lidx", "a", -1]]]]],
+                               ["for3", 1, 3, 6, [["eq", ["lidx", "c", 1], ["bin", "+", ["lidx", "a", 2], V("x1")]]]],
+                               ["for3", 2, 1, 4, [["eq", ["lidx", "a", 2], ["lidx", "c", -1]]]],
+                               ["for3", 2, -1, 4, [["eq", ["lidx", "a", 0], NUM("1000")]]]],
+               "ieqs": []})
     out = []
     for m in ms:
         m.update({"kind": "model", "name": "M", "stream": "corpus"})
@@ -1269,10 +1303,6 @@ def corpus():
     return out
 
 
-KNOWN_SEEDS = {
-    "three-part-range-order": {"N": 6, "eqs": [["for3", 1, 2, 5, [["eq", ["lidx", "a", 0], ["loopvar"]]]]], "ieqs": []},
-    "ne-operator-unmapped": {"N": 3, "eqs": [["eq", ["var", "b1"], ["bin", "<>", ["var", "x1"], ["var", "x2"]]]], "ieqs": []},
-}
 
 
 # =============================================================================================
@@ -1429,7 +1459,7 @@ def run(ctx):
 
     ctx.cov["evaluations"] = tot["entries"]
     ctx.cov["distinct_nontrivial"] = len(distinct)
-    ctx.cov["rule"] = ("%d generated models (%d corpus, %d plain, %d with '<>', %d with a three-part range, %d with an empty offset loop, %d with a user function x 3 option sets, %d with matrices/slices) x %d dyadic points; "
+    ctx.cov["rule"] = ("%d generated models (%d corpus, %d plain, %d with '<>', %d guaranteed three-part range, %d with an empty offset loop, %d with a user function x 3 option sets, %d with matrices/slices) x %d dyadic points; "
                        "an evaluation = one residual entry compared with the exact lhs - rhs; distinct non-trivial = distinct "
                        "model texts with at least one judged point; %d points judged, %d skipped (division by zero / domain / "
                        "relation within rounding distance of a tie); %d Coq correspondence cases"
